@@ -1,8 +1,94 @@
 import PilotaModel.Base.Sexp
-/-  Line-protocol verbs of track Pb (stub: answers nothing yet). -/
+import PilotaModel.Proto.Wire
+import PilotaModel.Proto.Scalar
+/-  Line-protocol verbs of track Pb: the model's answer to each request of harness/pbshared. -/
 namespace Driver.Pb
-open Pilota
+open Pilota Pilota.Proto
 
-def answer (_items : List Sexp) : Option String := none
+def svSexp : SVal → String
+  | .int n => s!"(i {n})"
+  | .bool b => if b then "(b 1)" else "(b 0)"
+  | .f32 x => s!"(f32 {toHex (natToBE 4 x)})"
+  | .f64 x => s!"(f64 {toHex (natToBE 8 x)})"
+  | .bs b => s!"(bs {hexOrDash b})"
+
+def svOf : Sexp → Option SVal
+  | .list [.atom "i", x] => .int <$> x.asInt
+  | .list [.atom "b", x] => do let n ← x.asNat; pure (.bool (n != 0))
+  | .list [.atom "f32", x] => do let b ← x.asHex; pure (.f32 (beToNat b))
+  | .list [.atom "f64", x] => do let b ← x.asHex; pure (.f64 (beToNat b))
+  | .list [.atom "bs", x] => .bs <$> x.asHex
+  | _ => none
+
+def svs (vs : List SVal) : String := if vs.isEmpty then "-" else " ".intercalate (vs.map svSexp)
+
+def answer (items : List Sexp) : Option String := do
+  let verb ← items.head? >>= Sexp.asAtom
+  match verb with
+  | "pbvarenc" =>
+    let n ← items[1]? >>= Sexp.asNat
+    pure s!"ok {hexOrDash (encodeVarint n)} len={encodedLenVarint n}"
+  | "pbvardec" =>
+    let bs ← items[1]? >>= Sexp.asHex
+    match decodeVarint bs with
+    | .ok (v, r) => pure s!"ok {v} rem={r.length}"
+    | o => pure o.cls
+  | "pbkeyenc" =>
+    let tag ← items[1]? >>= Sexp.asNat
+    let wt ← items[2]? >>= Sexp.asAtom >>= WireType.ofName
+    match encodeKey tag wt with
+    | .ok b => pure s!"ok {hexOrDash b} len={keyLen tag}"
+    | o => pure o.cls
+  | "pbkeydec" =>
+    let bs ← items[1]? >>= Sexp.asHex
+    match decodeKey bs with
+    | .ok ((t, w), r) => pure s!"ok {t} {w.name} rem={r.length}"
+    | o => pure o.cls
+  | "pbskip" =>
+    let wt ← items[1]? >>= Sexp.asAtom >>= WireType.ofName
+    let tag ← items[2]? >>= Sexp.asNat
+    let bs ← items[3]? >>= Sexp.asHex
+    match skipField recursionLimit wt tag bs with
+    | .ok r => pure s!"ok rem={r.length}"
+    | o => pure o.cls
+  | "pbsc" =>
+    let c ← items[1]? >>= Sexp.asAtom >>= Codec.ofName
+    let tag ← items[2]? >>= Sexp.asNat
+    let v ← items[3]? >>= svOf
+    let b := c.encode tag v
+    let back := match decodeKey b with
+      | .ok ((_, w), r) => c.merge w r
+      | .err k => .err k | .panic m => .panic m | .fuel => .fuel
+    match back with
+    | .ok (v2, r) => pure s!"ok {hexOrDash b} len={c.encodedLen tag v} | {svSexp v2} rem={r.length}"
+    | o => pure s!"ok {hexOrDash b} len={c.encodedLen tag v} | {o.cls}"
+  | "pbscm" =>
+    let c ← items[1]? >>= Sexp.asAtom >>= Codec.ofName
+    let wt ← items[2]? >>= Sexp.asAtom >>= WireType.ofName
+    let bs ← items[3]? >>= Sexp.asHex
+    match c.merge wt bs with
+    | .ok (v, r) => pure s!"ok {svSexp v} rem={r.length}"
+    | o => pure o.cls
+  | "pbrep" | "pbpk" =>
+    let c ← items[1]? >>= Sexp.asAtom >>= Codec.ofName
+    let tag ← items[2]? >>= Sexp.asNat
+    let vs ← (items.drop 3).mapM svOf
+    let (b, l) := if verb == "pbrep" then (c.encodeRepeated tag vs, c.encodedLenRepeated tag vs)
+      else (c.encodePacked tag vs, c.encodedLenPacked tag vs)
+    match c.mergeAll (b.length + 1) [] b with
+    | .ok acc => pure s!"ok {hexOrDash b} len={l} | {svs acc} rem=0"
+    | o => pure s!"ok {hexOrDash b} len={l} | {o.cls}"
+  | "pbrepm" =>
+    let c ← items[1]? >>= Sexp.asAtom >>= Codec.ofName
+    let bs ← items[2]? >>= Sexp.asHex
+    match c.mergeAll (bs.length + 1) [] bs with
+    | .ok acc => pure s!"ok {svs acc}"
+    | o => pure o.cls
+  | "pblend" =>
+    let bs ← items[1]? >>= Sexp.asHex
+    match decodeVarint bs with
+    | .ok (v, _) => pure s!"ok {v}"
+    | o => pure o.cls
+  | _ => none
 
 end Driver.Pb
